@@ -85,7 +85,11 @@ func (self ValueList) Fields() (map[string]*Value, *VmInterrupt) {
 		}),
 		"concat": NewValueBuiltinFunction(func(executor Executor, cancelCtx *context.Context, span errors.Span, args ...Value) (*Value, *VmInterrupt) {
 			other := args[0].(ValueList)
-			*self.Values = append(*self.Values, *other.Values...)
+			// every element gets its own slot: the two lists must not share them
+			for _, item := range *other.Values {
+				elem := *item
+				*self.Values = append(*self.Values, &elem)
+			}
 			return NewValueNull(), nil
 		}),
 		"join": NewValueBuiltinFunction(func(executor Executor, cancelCtx *context.Context, span errors.Span, args ...Value) (*Value, *VmInterrupt) {
